@@ -457,7 +457,9 @@ func c19Searches(c *lib.Ctx) {
 		}
 		specs = append(specs, dbSpec{Pool: idx})
 	}
-	qs := append(uQueries([]string{"compress", "files", "git", "tar", "list", "qzx", "zzz"}, 2), "", "the")
+	qs := append(uQueries([]string{"compress", "files", "git", "tar", "list", "qzx", "zzz"}, 2), "", "the",
+		// one blank-separated word made of several vocabulary words (hyphen, dot, slash, underscore)
+		"compress-files", "git.tar list-files", "tar.gz files", "list/files/git", "compress_files-tar.list")
 	for di, spec := range specs {
 		if !c.Mine(int64(di)) {
 			continue
@@ -517,7 +519,7 @@ func init() {
 	lib.Subs["c19load"] = c19Child
 	lib.Register(&lib.Check{
 		ID: "C19", Level: "model_checking",
-		Rule:      "(loaders) every byte prefix (0..818 / 0..808 bytes) of a valid 2-word vector file and of a valid 2-command embedding file x header count {kept,0,1,2,3,65536,2^31,2^32-1}, + first word-length field {0,1,65535} at every prefix, + dimension {0,1,99,101,2^32-1} x counts at 5 prefixes: each loaded in a child process under a 1.5 GiB address-space cap; a case that kills the child is attributed exactly and the child restarted after it; oracle: (vectors, nil) or (nil, error), no panic, allocation <= 64 MB + 16 x file size. (cosine) all ordered pairs of the 400 vectors with 0..3 components (thorough: the 2,801 vectors with 0..4 components) over {0,1,-1,0.5,1e-30,3e38,-3e38}: exact symmetry, |cos|<=1, 0 for empty / zero / mismatched. (search) 40-entry + all subsets of <=3 of 8 pool entries x 58 queries x NLP on/off x 7 in-memory indexes (full, rotated, one short, wrong length, no command vectors, word vectors whose average overflows float32, command rows holding NaN / Inf as a damaged file can) attached through the overlay setter: same result set, score in [without, (1+alpha) x without], list ordered; LoadEmbeddings without files is a no-op. non-trivial = rejected files + non-zero cosines + searches whose scores the semantic stage changed",
+		Rule:      "(loaders) every byte prefix (0..818 / 0..808 bytes) of a valid 2-word vector file and of a valid 2-command embedding file x header count {kept,0,1,2,3,65536,2^31,2^32-1}, + first word-length field {0,1,65535} at every prefix, + dimension {0,1,99,101,2^32-1} x counts at 5 prefixes: each loaded in a child process under a 1.5 GiB address-space cap; a case that kills the child is attributed exactly and the child restarted after it; oracle: (vectors, nil) or (nil, error), no panic, allocation <= 64 MB + 16 x file size. (cosine) all ordered pairs of the 400 vectors with 0..3 components (thorough: the 2,801 vectors with 0..4 components) over {0,1,-1,0.5,1e-30,3e38,-3e38}: exact symmetry, |cos|<=1, 0 for empty / zero / mismatched. (search) 40-entry + all subsets of <=3 of 8 pool entries x 63 queries (5 of them joining vocabulary words with '-', '.', '/', '_') x NLP on/off x 7 in-memory indexes (full, rotated, one short, wrong length, no command vectors, word vectors whose average overflows float32, command rows holding NaN / Inf as a damaged file can) attached through the overlay setter: same result set, score in [without, (1+alpha) x without], list ordered; LoadEmbeddings without files is a no-op. non-trivial = rejected files + non-zero cosines + searches whose scores the semantic stage changed",
 		Assume:    []string{"the embedding index setter is an overlay accessor (" + accMode + ")", "in-memory vectors have Dimension components (the loaders guarantee it for files)", "CosineSimilarity itself is checked on finite vectors only; the search stage is checked with NaN / Inf rows and overflowing sums as well"},
 		QuickSecs: 200, ThorSecs: 900,
 		Run: c19Run,
